@@ -6,6 +6,7 @@ import (
 	"encoding/json"
 	"errors"
 	"fmt"
+	"io"
 	"net/http"
 	"net/url"
 	"sort"
@@ -42,6 +43,10 @@ type Case struct {
 	Auth   map[string]bool `json:"auth"` // scheme -> accepted by the callback
 	Opts   int             `json:"opts"` // 1 MultiError, 2 ExcludeRequestBody, 4 ExcludeRequestQueryParams
 	NoAuth bool            `json:"no_auth_func"`
+	// PreOpts: when positive, the same request is first validated against the same document with
+	// these option bits (plus 8 = an authentication callback that accepts everything): the judged
+	// validation must go as on a fresh document
+	PreOpts int `json:"pre_opts,omitempty"`
 }
 
 func TestMain(m *testing.M) { h.Main(m, "C07") }
@@ -214,6 +219,22 @@ func check(c Case) (o h.Outcome) {
 			}
 			return errors.New("denied " + in.SecuritySchemeName)
 		}
+	}
+	if c.PreOpts > 0 {
+		pre := req.Clone(context.Background())
+		if body != "" {
+			pre.Body = io.NopCloser(strings.NewReader(body))
+		}
+		po := &openapi3filter.Options{MultiError: c.PreOpts&1 != 0, ExcludeRequestBody: c.PreOpts&2 != 0, ExcludeRequestQueryParams: c.PreOpts&4 != 0, SkipSettingDefaults: true}
+		if c.PreOpts&8 != 0 {
+			po.AuthenticationFunc = openapi3filter.NoopAuthenticationFunc
+		}
+		if !o.Guarded("ValidateRequest(prelude)", func() {
+			_ = openapi3filter.ValidateRequest(context.Background(), &openapi3filter.RequestValidationInput{Request: pre, Route: route, Options: po})
+		}) {
+			return
+		}
+		o.Class("prelude")
 	}
 	in := &openapi3filter.RequestValidationInput{Request: req, Route: route, Options: opts}
 	var verr error
@@ -492,5 +513,8 @@ func gen(t *rapid.T) Case {
 	}
 	c.Opts = rapid.IntRange(0, 7).Draw(t, "opts")
 	c.NoAuth = rapid.IntRange(0, 9).Draw(t, "noauth") == 0
+	if rapid.IntRange(0, 2).Draw(t, "prelude") == 0 {
+		c.PreOpts = rapid.IntRange(1, 15).Draw(t, "preopts")
+	}
 	return c
 }
